@@ -40,7 +40,14 @@ branded values the program can currently use (`held`).  Steps:
 * `call s σ` — the program calls table entry `s`, instantiating its lifetime parameters by `σ`.
   For every lifetime of `inBrands` it must hold a value of brand `σ l` (one `σ` for all occurrences:
   invariance); every other lifetime is instantiated as the caller likes.  It obtains values of brands
-  `σ l` for `l ∈ outBrands`.
+  `σ l` for `l ∈ outBrands`;
+* `forget`   — values may be dropped at any time.
+
+`Sig.ok` (for a signature that code without `unsafe` can call) asks three things: every result brand
+is the brand of an input (`outBrands ⊆ inBrands`, by name — identity), every reference lifetime of
+the result is a lifetime of an input, and the signature mentions one brand only (`singleBrand`: a
+function taking a pointer of brand `'gc` and a `Mutation<'m>` could carry the pointer over to `'m`
+although `'m` *is* the brand of an input).
 
 Not modelled: reference lifetimes (checked by the same identity rule in `Sig.flowOk`, but covariant
 borrows have no place in a calculus of brands), type parameters (C19s), `'a: 'b` bounds (ignored:
@@ -72,10 +79,19 @@ structure Sig where
 /-- Code without `unsafe` can call it. -/
 def Sig.callable (s : Sig) : Bool := !s.isUnsafe || s.macroReachable
 
+/-- All brand lifetimes the signature mentions, inputs and result. -/
+def Sig.brands (s : Sig) : List String := s.inBrands ++ s.outBrands
+
+/-- The signature mentions at most one brand: a function that takes values of two brands (say a
+`GcWeak<'gc, T>` and a `&Mutation<'m>`) could move a pointer from one arena to the other even though
+each result brand is the brand of *some* input. -/
+def Sig.singleBrand (s : Sig) : Bool := s.brands.all (fun l => s.brands.all (fun l' => l == l'))
+
 /-- Every brand of the result is the brand of an input; every reference lifetime of the result is a
-lifetime of an input.  Identity only. -/
+lifetime of an input; one brand only.  Identity only. -/
 def Sig.flowOk (s : Sig) : Bool :=
   s.outBrands.all (fun l => s.inBrands.contains l) && s.outRefs.all (fun l => s.inLts.contains l)
+  && s.singleBrand
 
 def Sig.ok (s : Sig) : Bool := !s.callable || s.flowOk
 
